@@ -178,3 +178,140 @@ fn c07m_pipeline_witness() {
     core::mem::forget(mdl);
     assert!(false);
 }
+
+// =================================================================================================
+// C06: MDL::from_existing on a generated minimal version-5 model (1 LOD, 1 mesh, 1 sub-mesh,
+// 1 material name, 2 vertices in 2 streams, 3 indices).  Layout (counts, offsets, strides, the
+// declaration's stream/type/usage tags) is concrete; the vertex and index BUFFER BYTES are symbolic.
+// =================================================================================================
+const M_TOTAL: usize = 724;
+const M_MODEL: usize = 68;          // ModelData starts behind the 0x44-byte file header
+const M_DECL: usize = M_MODEL;      // 136 bytes of vertex declaration
+const M_STR: usize = M_DECL + 136;  // string_count(2) pad(2) string_size(4) strings(4)
+const M_HDR: usize = M_STR + 12;    // radius ... unknown9 + pad: 56 bytes
+const M_LODS: usize = M_HDR + 56;   // 3 x 60
+const M_MESH: usize = M_LODS + 180; // 36
+const M_SUB: usize = M_MESH + 36;   // 16
+const M_MATOFF: usize = M_SUB + 16; // 4
+const M_TAIL: usize = M_MATOFF + 4; // bone map size (4), padding amount (1), 4 bounding boxes (128)
+const M_VTX: usize = M_TAIL + 133;  // = 641: vertex data of LOD 0
+const M_S0: usize = 28;             // stream 0 stride: position Single3 (12) + UV Single4 (16)
+const M_S1: usize = 8;              // stream 1 stride: UV Half2 (4) + colour ByteFloat4 (4)
+const M_IDX: usize = M_VTX + 2 * M_S0 + 2 * M_S1; // = 713: index data
+
+fn mput<const N: usize>(buf: &mut [u8; M_TOTAL], off: usize, v: [u8; N]) {
+    let mut i = 0;
+    while i < N { buf[off + i] = v[i]; i += 1; }
+}
+fn melement(buf: &mut [u8; M_TOTAL], slot: usize, stream: u8, offset: u8, t: VertexType, u: VertexUsage) {
+    let o = M_DECL + slot * 8;
+    buf[o] = stream; buf[o + 1] = offset; buf[o + 2] = t as u8; buf[o + 3] = u as u8; buf[o + 4] = 0;
+}
+fn minimal_model(payload: &[u8; 78]) -> [u8; M_TOTAL] {
+    let mut b = [0u8; M_TOTAL];
+    // ---- file header
+    mput(&mut b, 0, 0x0100_0005u32.to_le_bytes());
+    mput(&mut b, 12, 1u16.to_le_bytes());                 // vertex declaration count
+    mput(&mut b, 14, 1u16.to_le_bytes());                 // material count
+    mput(&mut b, 16, (M_VTX as u32).to_le_bytes());       // vertex offset LOD 0
+    mput(&mut b, 28, (M_IDX as u32).to_le_bytes());       // index offset LOD 0
+    mput(&mut b, 40, 72u32.to_le_bytes());                // vertex buffer size LOD 0
+    mput(&mut b, 52, 16u32.to_le_bytes());                // index buffer size LOD 0
+    b[64] = 1;                                            // lod count
+    // ---- vertex declaration
+    melement(&mut b, 0, 0, 0, VertexType::Single3, VertexUsage::Position);
+    melement(&mut b, 1, 0, 12, VertexType::Single4, VertexUsage::UV);
+    melement(&mut b, 2, 1, 0, VertexType::Half2, VertexUsage::UV);
+    melement(&mut b, 3, 1, 4, VertexType::ByteFloat4, VertexUsage::Color);
+    b[M_DECL + 4 * 8] = 0xFF;
+    // ---- strings: "mt\0\0"
+    mput(&mut b, M_STR, 1u16.to_le_bytes());
+    mput(&mut b, M_STR + 4, 4u32.to_le_bytes());
+    b[M_STR + 8] = b'm'; b[M_STR + 9] = b't';
+    // ---- model header counts
+    mput(&mut b, M_HDR + 4, 1u16.to_le_bytes());          // mesh count
+    mput(&mut b, M_HDR + 8, 1u16.to_le_bytes());          // sub-mesh count
+    mput(&mut b, M_HDR + 10, 1u16.to_le_bytes());         // material count
+    b[M_HDR + 22] = 1;                                    // lod count
+    b[M_HDR + 23] = 0x01;                                 // flags1 (a valid tag)
+    // ---- LOD 0
+    mput(&mut b, M_LODS + 2, 1u16.to_le_bytes());         // mesh count
+    mput(&mut b, M_LODS + 44, 72u32.to_le_bytes());       // vertex buffer size
+    mput(&mut b, M_LODS + 48, 16u32.to_le_bytes());       // index buffer size
+    mput(&mut b, M_LODS + 52, (M_VTX as u32).to_le_bytes());
+    mput(&mut b, M_LODS + 56, (M_IDX as u32).to_le_bytes());
+    // ---- mesh 0
+    mput(&mut b, M_MESH, 2u16.to_le_bytes());             // vertex count
+    mput(&mut b, M_MESH + 4, 3u32.to_le_bytes());         // index count
+    mput(&mut b, M_MESH + 12, 1u16.to_le_bytes());        // sub-mesh count
+    mput(&mut b, M_MESH + 24, ((2 * M_S0) as u32).to_le_bytes()); // stream 1 offset inside the LOD's vertex data
+    b[M_MESH + 32] = M_S0 as u8; b[M_MESH + 33] = M_S1 as u8; b[M_MESH + 35] = 2; // strides, stream count
+    // ---- sub-mesh 0: indices 0..3
+    mput(&mut b, M_SUB + 4, 3u32.to_le_bytes());
+    // ---- symbolic vertex / index buffers
+    let mut i = 0;
+    while i < 72 { b[M_VTX + i] = payload[i]; i += 1; }
+    i = 0;
+    while i < 6 { b[M_IDX + i] = payload[72 + i]; i += 1; }
+    b
+}
+
+fn mdl_stub_f16_to_f32(i: u16) -> f32 { half::f16::from_bits(i).to_f32_const() }
+
+#[kani::proof]
+#[kani::unwind(80)]
+#[kani::stub(half::binary16::arch::f16_to_f32, mdl_stub_f16_to_f32)]
+fn c06_from_existing_minimal_model() {
+    let payload: [u8; 78] = kani::any();
+    let b = minimal_model(&payload);
+    let mdl = MDL::from_existing(&b).unwrap();
+    assert_eq!(mdl.lods.len(), 1);
+    assert_eq!(mdl.lods[0].parts.len(), 1);
+    let p = &mdl.lods[0].parts[0];
+    assert_eq!(p.vertices.len(), 2);
+    let f = |o: usize| u32::from_le_bytes([b[o], b[o + 1], b[o + 2], b[o + 3]]);
+    // both vertices (enumerated: the harness carries no assumption, see registry no_cover)
+    let mut k = 0;
+    while k < 2 {
+        let v = &p.vertices[k];
+        let s0 = M_VTX + k * M_S0;
+        let s1 = M_VTX + 2 * M_S0 + k * M_S1;
+        // position: three floats at the start of stream 0
+        assert_eq!((v.position[0].to_bits(), v.position[1].to_bits(), v.position[2].to_bits()), (f(s0), f(s0 + 4), f(s0 + 8)));
+        // second UV layer: last two floats of the Single4 element
+        assert_eq!((v.uv1[0].to_bits(), v.uv1[1].to_bits()), (f(s0 + 20), f(s0 + 24)));
+        // first UV layer: overwritten by the Half2 element of stream 1
+        let h0 = u16::from_le_bytes([b[s1], b[s1 + 1]]);
+        let h1 = u16::from_le_bytes([b[s1 + 2], b[s1 + 3]]);
+        if !((h0 & 0x7C00) == 0x7C00 && (h0 & 0x3FF) != 0) {
+            assert_eq!(v.uv0[0].to_bits(), crate::verif_support::refs::ref_half_to_f32_bits(h0));
+        }
+        if !((h1 & 0x7C00) == 0x7C00 && (h1 & 0x3FF) != 0) {
+            assert_eq!(v.uv0[1].to_bits(), crate::verif_support::refs::ref_half_to_f32_bits(h1));
+        }
+        // colour: byte / 255
+        assert_eq!(v.color[3].to_bits(), ((b[s1 + 7] as f32) / 255.0).to_bits());
+        assert_eq!(v.color[0].to_bits(), ((b[s1 + 4] as f32) / 255.0).to_bits());
+        // untouched attributes keep their defaults
+        assert_eq!(v.normal[0].to_bits(), 0);
+        k += 1;
+    }
+    // indices, sub-mesh ranges, names, raw streams
+    assert_eq!(p.indices.len(), 3);
+    assert_eq!(p.indices[0], u16::from_le_bytes([b[M_IDX], b[M_IDX + 1]]));
+    assert_eq!(p.indices[2], u16::from_le_bytes([b[M_IDX + 4], b[M_IDX + 5]]));
+    assert_eq!(p.submeshes.len(), 1);
+    assert_eq!((p.submeshes[0].index_offset, p.submeshes[0].index_count), (0, 3));
+    assert_eq!(mdl.material_names.len(), 1);
+    assert!(mdl.material_names[0].as_bytes() == b"mt");
+    assert_eq!(p.vertex_streams.len(), 2);
+    assert_eq!((p.vertex_stream_strides[0], p.vertex_stream_strides[1]), (M_S0, M_S1));
+    assert_eq!(p.vertex_streams[0].len(), 2 * M_S0);
+    assert_eq!(p.vertex_streams[1].len(), 2 * M_S1);
+    let mut z = 0;
+    while z < 2 * M_S1 {
+        assert_eq!(p.vertex_streams[1][z], b[M_VTX + 2 * M_S0 + z]);
+        z += 1;
+    }
+    core::mem::forget(mdl);
+}
